@@ -19,6 +19,7 @@ from apischema import ValidationError, settings
 
 PROP = "C14"
 RULE = (
+    "[plus instances of passed-through classes (pass_through=) under every coercion mode: returned as in strict mode] "
     "[plus every Literal type of 2..3 values drawn in every order from {1, True, '1', '1.0', 1.5, 'a', 0, False} x 70 data: "
     "the classes are tried in the order of the values, a refusing class does not stop the search, a rejection has one entry] "
     "[plus a world of discriminated unions / classes, plain and recursive (alternative = the class itself, reached as a "
@@ -351,8 +352,53 @@ def run_literals(st):
     st.count("literal_types", k)
 
 
+def run_pass_through(st):
+    """deserialization pass_through of instances, strict vs coercion: an instance of a passed-through class is returned as it
+    is in strict mode, hence under every coercion mode too (monotonicity on non-JSON data the options make acceptable)"""
+    import dataclasses
+    from typing import List, Optional, Tuple
+
+    @dataclasses.dataclass
+    class Point:
+        x: int = 0
+        y: int = 0
+
+    p = Point(1, 2)
+    cases = [
+        ("Point", Point, p, (Point,)),
+        ("List[Point]", List[Point], [p, {"x": 3}], (Point,)),
+        ("Optional[Point]", Optional[Point], p, (Point,)),
+        ("Tuple[int, ...]", Tuple[int, ...], (1, 2), (tuple,)),
+        ("pred", Point, p, lambda cls: cls is Point),
+    ]
+    for name, tp, datum, pt in cases:
+        ks, os_ = dc.run_impl(lambda d: apischema.deserialize(tp, d, pass_through=pt), datum)
+        for mode, kw in (("coerce", {"coerce": True}), ("right", {"coerce": c_right}), ("wrong", {"coerce": c_wrong}), ("raise", {"coerce": c_raise})):
+            kc, oc = dc.run_impl(lambda d: apischema.deserialize(tp, d, pass_through=pt, **kw), datum)
+            st.case("pass_through", name, mode, ks, kc)
+            if ks == "ok" and (kc != "ok" or not _same(os_, oc)):
+                st.violation({"label": "pass_through:" + name, "datum": repr(datum), "signature": {"kind": "coerce_rejects_strict_accepts", "shape": "pass_through", "mode": mode}, "what": f"{name} with pass_through: strict gives {os_!r} but {mode} gives {oc if kc == 'ok' else (dc.impl_errors(oc)[:2] if kc == 'err' else repr(oc))!r}"[:400]})
+        # the settings route
+        settings.deserialization.coerce = True
+        try:
+            kc, oc = dc.run_impl(apischema.deserialization_method(tp, pass_through=pt), datum)
+        finally:
+            settings.deserialization.coerce = False
+        if ks == "ok" and (kc != "ok" or not _same(os_, oc)):
+            st.violation({"label": "pass_through:" + name, "datum": repr(datum), "signature": {"kind": "coerce_rejects_strict_accepts", "shape": "pass_through", "mode": "settings"}, "what": f"{name} with pass_through under settings.deserialization.coerce: {kc} {oc!r}, strict gives {os_!r}"[:400]})
+    apischema.cache.reset()
+
+
 def work(tier, widx, nworkers, st, extra):
     import os
+
+    if widx == (2 % nworkers) and os.environ.get("VERIF_ONLY") in (None, "", "pass_through"):
+        try:
+            run_pass_through(st)
+        except Exception:
+            import traceback
+
+            st.violation({"signature": {"kind": "harness_error"}, "harness_error": True, "what": "pass_through world", "traceback": traceback.format_exc()[-2000:]})
 
     if widx == 0 and os.environ.get("VERIF_ONLY") in (None, "", "disc"):
         run_discriminated(st)
